@@ -206,6 +206,16 @@ func (x *X) summariseLoop(fr *frame, order []*ssa.BasicBlock, li *loopInfo) {
 	x.witnesses = append(x.witnesses, w)
 	x.witClass[w] = class
 	x.addPoint(w, class)
+	if phi.Comment == "rangeindex" {
+		if x.rangeWitness == nil {
+			x.rangeWitness = map[string]bool{}
+		}
+		x.rangeWitness[w] = true
+		if x.rangeClass == nil {
+			x.rangeClass = map[string]bool{}
+		}
+		x.rangeClass[class] = true
+	}
 	atW := func(s string) string { return replaceTok(s, k, w) }
 	x.sc.Assert(implies(entry.cond, fmt.Sprintf("(<= %s %s)", lo, w)))
 	x.sc.Assert(implies(entry.cond, not(atW(contName))))
